@@ -341,6 +341,9 @@ class Waiting(State):
 
     def interrupt(self, reason: Any) -> None:
         # This will cause the future in execute() to raise the exception
+        if self._waiting_future.done():
+            # already resumed (or interrupted): the step ends anyway and the pending interrupt action is run then
+            return
         self._waiting_future.set_exception(reason)
 
     async def execute(self) -> State:  # type: ignore
